@@ -70,6 +70,10 @@ def generate(seed, tier):
             # surrounding blanks are part of the cell in every storage format
             index = rng.randrange(len(row))
             row[index] = rng.choice([" " + row[index], row[index] + " ", "  " + row[index]]) if row[index] else row[index]
+        if rng.random() < 0.1:
+            # characters some libraries take for line breaks are ordinary characters of a cell in every storage format
+            index = rng.randrange(len(row))
+            row[index] = row[index][:2] + rng.choice(["\u2028", "\u0085", "\u2029"])
         table.append(row)
     return {"cid": spec, "table": table, "ios": [simfs.IoConfig.draw(swarm) for _ in range(3)],
             "ods_features": sorted(swarm.sample(["colruns", "rowruns", "stored", "colstyle", "spans", "annotations", "embedded-object", "links"],
